@@ -75,6 +75,78 @@ func isSentinel(v ssa.Value, pkgSuffix, name string) bool {
 	return ok && g.Name() == name && strings.HasSuffix(g.Pkg.Pkg.Path(), pkgSuffix)
 }
 
+// c16ProbeRefusals: the dual of the probe's pass condition. A start or retry is
+// refused by the already-running probe only on live evidence - the status
+// getter failed, or the live status is not `not started`. A refusal for any
+// other reason (what a *recorded* run says, a pid that happens to exist, ...)
+// blocks runs that must be startable / retryable: a run whose agent was killed
+// is recorded as running for ever.
+func c16ProbeRefusals(e *Env, probe *ssa.Function, none int64) {
+	r := e.R
+	ff := e.Facts(probe)
+	n := 0
+	for _, b := range probe.Blocks {
+		rt, ok := b.Instrs[len(b.Instrs)-1].(*ssa.Return)
+		if !ok || !ff.Reachable(b) {
+			continue
+		}
+		allNil := true
+		for _, v := range RetVals(rt, 0) {
+			if !ir.IsNilConst(ir.Resolve(v)) {
+				allNil = false
+			}
+		}
+		if allNil {
+			continue
+		}
+		n++
+		dnf, okRC := ir.ReachingCondition(probe.Blocks[0], b, 32)
+		if !okRC {
+			r.Unknown("checkIsAlreadyRunning: reasons for refusing", e.InstrPos(rt), "reaching condition too large")
+			continue
+		}
+		var bad []string
+		for _, cj := range dnf {
+			for _, conj := range ff.ExpandDNFRegion(probe.Blocks[0], []ir.Lit(cj)) {
+				lits := ir.NormalizeAll(conj)
+				live := false
+				for _, l := range lits {
+					if l.Kind != "cmp" || l.Op != token.NEQ {
+						continue
+					}
+					// GetCurrentStatus err != nil
+					if ir.IsNilConst(l.Y) {
+						if ex, isE := ir.Resolve(l.X).(*ssa.Extract); isE && ex.Index == 1 {
+							if c, isC := ex.Tuple.(*ssa.Call); isC && c.Call.IsInvoke() && c.Call.Method.Name() == "GetCurrentStatus" {
+								live = true
+							}
+						}
+					}
+					// live status != not started
+					if k, isC := ir.ConstInt(l.Y); isC && k == none {
+						if p, okp := e.C.PathOf(l.X); okp && p.Suffix("Status") {
+							if ex, isE := ir.Resolve(p.Root).(*ssa.Extract); isE && ex.Index == 0 {
+								if c, isC := ex.Tuple.(*ssa.Call); isC && c.Call.IsInvoke() && c.Call.Method.Name() == "GetCurrentStatus" {
+									live = true
+								}
+							}
+						}
+					}
+				}
+				if !live {
+					bad = append(bad, "{"+strings.Join(e.RenderN(lits), " ; ")+"}")
+				}
+			}
+		}
+		r.Check(len(dnf) > 0 && len(bad) == 0, "checkIsAlreadyRunning: refuses only when the live status could not be read or is not `not started`", e.InstrPos(rt),
+			"a start or retry is refused although the live probe found nothing running (e.g. because a recorded run still says `running`, which is what a killed agent leaves behind for ever): the interrupted run can never be retried",
+			"ways to this refusal without live evidence: "+strings.Join(bad, " | "))
+	}
+	if n == 0 {
+		r.Unknown("checkIsAlreadyRunning: refusal return", e.Pos(probe.Pos()), "no non-nil return")
+	}
+}
+
 func c16ProbeTable(e *Env) {
 	r := e.R
 	r.Rule("C16.probe-table", "DCS+VF", "probe and status getter decision tables", 4)
@@ -118,6 +190,9 @@ func c16ProbeTable(e *Env) {
 					"the already-running probe lets a start proceed although the DAG's current status is not `not started` (or could not be determined)", e.FactsStr("dominating conditions: ", lits))
 			}
 		}
+	}
+	if probe != nil {
+		c16ProbeRefusals(e, probe, none)
 	}
 	if getter == nil {
 		return
